@@ -391,18 +391,6 @@ theorem cd_second_order {f f' f'' f''' : ℝ → ℝ} {x h M : ℝ} (hh : 0 < h)
 example : |((fun t : ℝ => t ^ 2) (1 + 1 / 4) - (fun t : ℝ => t ^ 2) 1) / (1 / 4) - 2 * 1|
     ≤ |(1 / 4 : ℝ)| / 2 * 2 := by norm_num
 
-theorem bump_zero (x : Vec) (i : Nat) : bump x i 0 = x := by
-  unfold bump getR
-  apply List.ext_getElem?
-  intro j
-  rw [List.getElem?_set]
-  by_cases hij : i = j
-  · subst hij
-    by_cases hi : i < x.length
-    · simp [hi]
-    · simp [hi]
-  · simp [hij]
-
 /-- Entry `(j, k)` of the model's forward-difference Jacobian is the scalar difference quotient
     of output `j` along component `x_indices[k]`. -/
 theorem fd_model_entry (f : Vec → Vec) (sp : Option Space) (x : Vec) (s : Step) (idx : List Nat)
@@ -615,10 +603,6 @@ example : getR ((csGrad (polyFunG [[⟨1, [3, 0]⟩]]) [2, 5] (.scalar (1/4)) [0
 
 /-! ### The model's finite-difference Jacobians on polynomial functions (what the oracle checks) -/
 
-theorem getR_polyFun (ps : List Poly) (y : Vec) (j : Nat) (hj : j < ps.length) :
-    getR (polyFun ps y) j = ps[j].eval y := by
-  simp [getR, polyFun, List.getD_eq_getElem?_getD, List.getElem?_eq_getElem hj]
-
 open Set Polynomial in
 /-- **Forward differences of the model on polynomial functions are first-order accurate**:
     entry `(j, k)` differs from the partial derivative by at most `|d|/2 · M`, `d` the signed step of
@@ -725,5 +709,23 @@ theorem check_rejects_wrong (t ε : ℚ) (D a b : List Vec) (rows cols : List Na
 
 example : checkJac (1/8) [[1, 100]] [[1 + 1/16, 0]] [0] [0] = true ∧
     checkJac (1/8) [[2, 0]] [[1 + 1/16, 0]] [0] [0] = false := by decide +kernel
+
+/-! ### One approximator, many calls: the only state read is the default step -/
+
+/-- `f_gradient(step=None)` uses the step given to the constructor or to the `step` setter (the
+    last one), an explicit `step` argument overrides it and leaves it unchanged (the model's
+    `f_gradient` does not return a new state). -/
+theorem session_step_semantics (a : Approx) (s t : Step) :
+    (a.setStep s).resolve none = s ∧ (a.setStep s).resolve (some t) = t ∧
+    ((a.setStep s).setStep t).resolve none = t := ⟨rfl, rfl, rfl⟩
+
+/-- The columns returned by `generate_perturbations` are exactly the points at which `f_gradient`
+    evaluates the function (after the reference point for forward differences). -/
+theorem perturbations_are_call_points (sp : Option Space) (x : Vec) (s : Step) (idx : List Nat) :
+    fdCalls sp x s idx = x :: fdPerts sp x s idx ∧
+    (fdSteps sp x s idx).length = (fdPerts sp x s idx).length := by
+  constructor
+  · rfl
+  · simp [fdSteps, fdPerts, fdGenerate]
 
 end GV.C16
